@@ -699,11 +699,16 @@ def rank_facts():
     return facts
 
 
+STRUCT_MODE = False  # table-level obligations: pl.col(name) is a symbolic reference resolved by lfmodel
+
+
 def col(name, *more):
     if more:
         raise Unsupported("pl.col with several names")
     if isinstance(name, Sym):
         raise Unsupported("pl.col(symbolic name)")
+    if STRUCT_MODE:
+        return PlExpr(NV(z3.FreshConst(BOOL, "cn"), z3.FreshConst(INT, "cv")), "row", ("col", name))
     if name not in ENV:
         raise KeyError(f"polars model: no column {name!r} in the frame")
     return ENV[name]
@@ -916,9 +921,11 @@ import builtins as _b  # noqa: E402
 builtins_len = _b.len
 
 
-class LazyFrame:  # placeholder for isinstance checks in code paths we do not execute
-    pass
-
-
 def __getattr__(name):
+    if name.startswith("__"):
+        raise AttributeError(name)
+    if name in ("LazyFrame", "union", "concat"):
+        from . import lfmodel
+
+        return {"LazyFrame": lfmodel.LF, "union": lfmodel.union, "concat": lfmodel.concat}[name]
     raise Unsupported(f"polars model: pl.{name}")
